@@ -21,7 +21,7 @@ import re
 
 from ..cfg import ENTRY, EXIT
 from ..effects import USER_CALL
-from ..flow import Defs, Scope
+from ..flow import Defs, Scope, guard_facts
 from ..loader import AnalysisError, FuncInfo, dotted, norm, walk_no_nested
 from ..report import Ctx
 from ..selftest import Mutant
@@ -151,6 +151,12 @@ def rule_noreturn(ctx: Ctx) -> None:
     sliced = [n_ for _f, n_ in sc_he.walk() if isinstance(n_, ast.Subscript) and isinstance(n_.slice, ast.Slice) and isinstance(n_.value, ast.Call) and dotted(n_.value.func) in ("repr", "str")]
     ctx.add("2-noreturn", he, (abbrev or sliced or [he.node])[0], not (abbrev or sliced), "the keyword arguments are rendered unabridged" if not (abbrev or sliced) else
             f"`{norm((abbrev or sliced)[0])[:50]}` abbreviates the rendered keyword arguments: the annotation no longer shows the arguments of the failing invocation (two different invocations of a reduction carry the same note)", key="kwargs-unabridged")
+    rewrites = [a_ for a_ in walk_no_nested(he.node) if isinstance(a_, (ast.Assign, ast.AugAssign)) and any(isinstance(t, ast.Attribute) and t.attr in ("args", "msg", "message") and norm(t.value) == exc_param for t in (a_.targets if isinstance(a_, ast.Assign) else [a_.target]))]
+    # (the legacy branch for Python <= 3.10 builds a NEW exception; an assignment to e.args on the modern path changes the message of the caught one)
+    legacy = [a_ for a_ in rewrites if any("version_info" in t_ and p_ for t_, p_ in guard_facts(cfg, dh, cfg.node_containing(a_)))] if rewrites else []
+    rewrites = [a_ for a_ in rewrites if a_ not in legacy]
+    ctx.add("2-noreturn", he, rewrites[0] if rewrites else he.node, not rewrites, "the caught exception keeps its own args / message" if not rewrites else
+            f"`{norm(rewrites[0])[:50]}` changes the message of the caught exception (for exceptions raised without arguments): what surfaces is no longer what the user function raised, and differs from what reproduce() raises", key="args-untouched")
     msg_src = " ".join(norm(s) for s in walk_no_nested(he.node) if isinstance(s, ast.Assign))
     unused = [p_ for p_ in he.param_names()[1:3] if not any(isinstance(x, ast.Name) and x.id == p_ and isinstance(x.ctx, ast.Load) for x in ast.walk(he.node))]
     ctx.tri("2-noreturn", he, he.node, "__name__" in msg_src and not unused, bool(unused), "message names the function and its keyword arguments",
@@ -408,6 +414,15 @@ def _snapshot_rest(ctx: Ctx) -> None:
             "every kind of pipeline function has the error_snapshot attribute from construction on" if "error_snapshot" not in miss else
             f"`{norm(reads[0][1]) if reads else 'error_snapshot'}` is read from every function of the pipeline, but NestedPipeFunc.__init__ never creates `error_snapshot`: for a pipeline that contains a nested function "
             "Pipeline.error_snapshot raises AttributeError - before any failure, and after the failure of a function that is listed behind the nested one", key="nested-has-snapshot")
+    # __getstate__ builds the pickled state in a COPY of the instance dict: `state = vars(self)` / `self.__dict__` is the live dict,
+    # and `state["function"] = dumps(...)` then replaces the live function by bytes (reproduce() fails after the first save)
+    for gs_ in [f_ for f_ in P.functions.values() if f_.name == "__getstate__" and f_.module.name.startswith("pipefunc")]:
+        live = {t.id for a_ in walk_no_nested(gs_.node) if isinstance(a_, ast.Assign) and norm(a_.value) in ("vars(self)", "self.__dict__") for t in a_.targets if isinstance(t, ast.Name)}
+        edits = [a_ for a_ in walk_no_nested(gs_.node) if (isinstance(a_, (ast.Assign, ast.AugAssign, ast.Delete)) and any(isinstance(t, ast.Subscript) and isinstance(t.value, ast.Name) and t.value.id in live for t in (a_.targets if not isinstance(a_, ast.AugAssign) else [a_.target])))
+                 or (isinstance(a_, ast.Expr) and isinstance(a_.value, ast.Call) and isinstance(a_.value.func, ast.Attribute) and a_.value.func.attr in ("pop", "update", "setdefault", "clear") and isinstance(a_.value.func.value, ast.Name) and a_.value.func.value.id in live)]
+        ctx.add("4-snapshot", gs_, edits[0] if edits else gs_.node, not edits, f"{gs_.qualname.rsplit('.', 2)[-2]}.__getstate__ edits a copy of the instance dict" if not edits else
+                f"`{norm(edits[0])[:60]}` writes into the LIVE instance dict (`{sorted(live)[0]} = vars(self)` is not a copy): pickling the object changes it - after save_to_file (or any pickling, e.g. a process-pool map) "
+                "the snapshot's function is a bytes blob and reproduce() raises TypeError", key=f"getstate-copies {gs_.qualname.rsplit('.', 2)[-2]}")
     pe = P.func("pipefunc._pipeline._base.Pipeline.error_snapshot")
     ctx.tri("4-snapshot", pe, pe.node, "self.functions" in norm(pe.node) and ".error_snapshot" in norm(pe.node), ".error_snapshot" not in norm(pe.node), "Pipeline.error_snapshot returns a function's snapshot",
             "Pipeline.error_snapshot no longer reads the functions' snapshots", key="pipeline-snapshot")
@@ -428,6 +443,17 @@ def rule_pool(ctx: Ctx) -> None:
     managed_stack = [c for c in entered if any(isinstance(y, ast.Yield) for y in ast.walk(stacks[c.func.value.id])) and any(x is c for x in ast.walk(stacks[c.func.value.id]))]
     closed_by_hand = any(isinstance(c, ast.Call) and isinstance(c.func, ast.Attribute) and c.func.attr == "shutdown" for t_ in ast.walk(me.node) if isinstance(t_, ast.Try) for f_ in t_.finalbody for c in ast.walk(f_))
     ok = len(created) == 1 and bool(managed_with or managed_stack)
+    # a pool created in a helper that hands it back: the call of the helper stands for the pool
+    if not created:
+        for h_ in Scope(ctx, me).funcs[1:]:
+            if any(isinstance(c, ast.Call) and dotted(c.func).endswith("ProcessPoolExecutor") for c in ast.walk(h_.node)):
+                hcalls = [c for c in ast.walk(me.node) if isinstance(c, ast.Call) and dotted(c.func).rsplit(".", 1)[-1] == h_.name]
+                in_with = [c for c in hcalls if any(isinstance(w, ast.With) and any(any(x is c for x in ast.walk(i.context_expr)) for i in w.items) for w in ast.walk(me.node))
+                           or any(isinstance(e_, ast.Call) and isinstance(e_.func, ast.Attribute) and e_.func.attr == "enter_context" and any(x is c for x in ast.walk(e_)) for e_ in ast.walk(me.node))]
+                created = hcalls
+                if hcalls and len(in_with) == len(hcalls):
+                    ok = True
+                    managed_with = managed_with or [me.node]
     ctx.tri("5-pool", me, (withs or created or [me.node])[0], ok, bool(created) and not (managed_with or managed_stack) and not closed_by_hand and not entered and not withs,
             "the default pool lives inside a `with` (or an ExitStack) around the yield", "the default ProcessPoolExecutor is not created in a `with`: a failing run leaves the pool running",
             "how the default pool is shut down was not recognised", key="pool-with")
